@@ -68,6 +68,12 @@ def bounded_cycle(ctx):
               'maxloops is not initialised with a positive integer constant', init)
 
 
+def _result_names(f):
+    """locals of cycle() holding the next state: bound to the result of the state function or of _cleanup(...)"""
+    return {t.id for n in body_walk(f.node) if isinstance(n, ast.Assign) and isinstance(n.value, ast.Call)
+            and (src(n.value.func) == 'self.statefunc' or call_attr(n.value) == '_cleanup') for t in n.targets if isinstance(t, ast.Name)}
+
+
 @rule('C14.R2', min_instances=3)
 def never_raises(ctx):
     """state function and cleanup calls are contained; non-callable results go to _cleanup"""
@@ -87,8 +93,11 @@ def never_raises(ctx):
             routed = any(call_attr(x) == '_cleanup' for st in h.body for x in calls_in(st))
             ctx.check(routed, f'{f.qualname}:exception routed to cleanup', h, 'handler calls _cleanup(e)',
                       'an exception of the state function does not start the cleanup sequence', f)
-    nc = [n for n in body_walk(f.node) if isinstance(n, ast.If) and 'callable(ret)' in src(n.test) and src(n.test).startswith('not ')]
-    ok = bool(nc) and all(any(call_attr(x) == '_cleanup' for st in n.body for x in calls_in(st)) for n in nc)
+    # a _cleanup(...) call that lies exactly where a test found the result of the state function not callable
+    rv = _result_names(f)
+    fcfg = CFG(f.node, m, f.module)
+    notcallable = sides_with_fact(fcfg, lambda a, tv: not tv and isinstance(a, ast.Call) and dotted(a.func) == 'callable' and a.args and src(a.args[0]) in rv)
+    ok = any(call_attr(x) == '_cleanup' and set(fcfg.node_of(x)) <= notcallable for x in calls_in(f.node))
     ctx.check(ok, f'{f.qualname}:non-callable return routed to cleanup', f.node, 'if not callable(ret): ret = self._cleanup(...)',
               'a non-callable return value is not routed to the cleanup (it would be called as next state)', f)
     g = _m(m, '_cleanup')
@@ -154,12 +163,12 @@ def cleanup_taken_once(ctx):
     if not intr:
         raise AnchorMissing('interrupting _cleanup(self.next_task) not found in cycle')
     for c in intr:
-        ok = False
-        for a in ancestors(c):
-            if isinstance(a, ast.If) and isinstance(a.test, ast.BoolOp) and isinstance(a.test.op, ast.And):
-                parts = [src(v) for v in a.test.values]
-                if 'self.next_task' in parts and ('not self.cleanup_reason' in parts or 'self.cleanup_reason is None' in parts):
-                    ok = True
+        # the interrupting clean-up lies only where the tests established: a task is pending AND no clean-up is running
+        fcfg = CFG(f.node, m, f.module)
+        pending = sides_with_fact(fcfg, lambda a, tv: tv and src(a) == 'self.next_task')
+        idle = sides_with_fact(fcfg, lambda a, tv: (not tv and src(a) == 'self.cleanup_reason') or (tv and src(a) == 'self.cleanup_reason is None')
+                               or (not tv and src(a) == 'self.cleanup_reason is not None'))
+        ok = set(fcfg.node_of(c)) <= (pending & idle)
         ctx.check(ok, f'{f.qualname}:no interruption while cleaning up', c, 'guarded by `self.next_task and not self.cleanup_reason`',
                   'a running cleanup sequence can be interrupted / restarted by a new task', f)
     resets = [(fi, s) for fi in m.cls(SM).methods.values() for t, v, s in attr_stores(fi.node)
@@ -217,7 +226,7 @@ def busy_predicate(ctx):
     rets = [n for n in body_walk(f.node) if isinstance(n, ast.Return)]
     ok = False
     for r in rets:
-        ops = compare_ops(r.value) if r.value is not None else []
+        ops = conj_compare_ops(r.value) if r.value is not None else []
         have = {(l.rpartition('.')[2] if 'StatusType' in l or l.isupper() else 'code', op, rr.rpartition('.')[2] if 'StatusType' in rr or rr.isupper() else 'code')
                 for l, op, rr in ops}
         if ('BUSY', '<=', 'code') in have and ('code', '<', 'ERROR') in have and len(ops) == 2:
@@ -321,10 +330,11 @@ def each_run_starts_clean(ctx):
     ctx.check(bool(upd) and bool(enter), f'{f.qualname}:requested state entered with its attributes', f.node, '_new_state(action.newstate); _update_attributes(action.kwds)',
               'the posted Start is not carried out completely (state entered / keywords applied)', f)
     loops = [n for n in body_walk(f.node) if isinstance(n, ast.For)]
-    inner_enter = [c for c in calls_in(f.node) if call_attr(c) == '_new_state' and c.args and src(c.args[0]) == 'ret']
+    rv = _result_names(f)
+    inner_enter = [c for c in calls_in(f.node) if call_attr(c) == '_new_state' and c.args and src(c.args[0]) in rv]
     ctx.check(bool(inner_enter), f'{f.qualname}:returned state is entered', f.node, '_new_state(ret)', 'the state returned by a state function is never entered', f)
     for t in cfg.nodes:
-        if t.kind == 'test' and src(t.ast).replace('not ', '') == 'ret':
+        if t.kind == 'test' and src(t.ast).replace('not ', '') in rv:
             neg = src(t.ast).startswith('not ')
             ids = {i for c in inner_enter for i in cfg.node_of(c) if any(a is getattr(t.ast, 'cfg_owner', None) for a in ancestors(c))}
             if ids:
